@@ -292,6 +292,65 @@ pub fn run(ctx: &Ctx) -> Evidence {
         ev.class("full-product-edge-evaluations", e2);
     }
 
+    // ---- concrete traces: every (micro-address, IR) visited by real programs must be a state of the
+    // extracted graph (validates the forced exploration against unforced execution) and obey (ii)
+    {
+        use proptest::strategy::{Strategy, ValueTree};
+        let n_prog: usize = ctx.tier.pick(1500, 40_000);
+        let res = par_chunks(ctx.threads, 16, |k| {
+            let mut runner = runner(mix(ctx.seed ^ 0xC09 ^ ((k as u64) << 36)), (n_prog / 16) as u32);
+            let strat = crate::props::cpu::seq_strategy(50, 0);
+            let mut edges = 0u64;
+            let mut outside: Option<String> = None;
+            for _ in 0..n_prog / 16 {
+                let c = match strat.new_tree(&mut runner) {
+                    Ok(t) => t.current(),
+                    Err(_) => continue,
+                };
+                let mut ram = ram_from_seed(c.ram_seed);
+                let code = crate::progen_sem::assemble(&c.prog);
+                for (i, b) in code.iter().enumerate().take(0xF0) {
+                    ram[i] = *b;
+                }
+                let mut m = base_machine();
+                m.bus_mut().memory_mut().copy_from_slice(&ram);
+                m.bus_mut().input_fc(c.inp[0]);
+                m.bus_mut().input_ff(c.inp[3]);
+                if c.modes & 1 == 1 {
+                    m.bus_mut().write(0xF9, 1);
+                }
+                for e in 0..1500 {
+                    if m.state() != State::Running {
+                        break;
+                    }
+                    if c.modes >> 1 & 1 == 1 && e % 97 == 5 {
+                        m.trigger_key_edge_interrupt();
+                    }
+                    m.trigger_clock_edge();
+                    edges += 1;
+                    let s = m.verif_snapshot();
+                    if m.state() == State::Running && !seen.contains_key(&(s.micro_address, s.instruction_register)) && outside.is_none() {
+                        outside = Some(format!("program {} reaches control state {:03X}/{:02X} which the forced graph exploration never produced", hex(&code), s.micro_address, s.instruction_register));
+                    }
+                }
+            }
+            (edges, outside)
+        });
+        let mut traced = 0u64;
+        for (e, o) in res {
+            traced += e;
+            if let Some(o) = o {
+                println!("HARNESS-ERROR property=C09 {}", o);
+                println!("INCONCLUSIVE property=C09 the graph extraction does not cover real execution");
+                let code = finish(ctx, std::mem::replace(&mut ev, Evidence::new("exploration", "")));
+                std::process::exit(if code == 1 { 1 } else { 2 });
+            }
+        }
+        ev.evaluations += traced;
+        ev.class("concrete-trace-edges-inside-the-graph", traced);
+        ev.extra.insert("traces_validated_against_impl".into(), json!(n_prog));
+    }
+
     // ---- concrete MUL / DIV termination for all operand pairs (and Rd = Rs)
     let jobs: Vec<(u8, u8, u8)> = vec![(0xB0, 0, 1), (0xB0, 1, 1), (0xC0, 0, 1), (0xC0, 2, 2)];
     let res = par_chunks(ctx.threads, jobs.len() * 16, |k| {
